@@ -129,7 +129,7 @@ def body(m, cfg):
 def _extra(e):
     from symx import driver
     here = os.path.dirname(os.path.abspath(__file__))
-    t = 120 if e["tier"] == "quick" else 400
+    t = 180 if e["tier"] == "quick" else 400
     return driver.crosshair_extra(os.path.join(here, "ch_c20.py"), PROP, timeout=t)
 
 
